@@ -13,7 +13,7 @@ PRINTABLE = "".join(chr(c) for c in range(33, 127))
 WIDTH_LENGTHS = [1, 9, 10, 11, 49, 50, 51, 59, 60, 61, 79, 80, 81, 119, 120, 121, 159, 160, 161, 599, 600, 601]
 
 NEXUS_KEYWORDS = ["#NEXUS", "BEGIN", "DATA", "CHARACTERS", "TAXA", "TAXLABELS", "TREES", "TREE", "DIMENSIONS",
-                  "NTAX", "NCHAR", "FORMAT", "DATATYPE", "MISSING", "MATCHCHAR", "GAP", "MATRIX", "END"]
+                  "NTAX", "NCHAR", "FORMAT", "DATATYPE", "MISSING", "MATCHCHAR", "GAP", "MATRIX", "END", "ENDBLOCK"]
 # reserved words that are also words over the protein (or nucleotide) IUPAC alphabet
 KEYWORD_ROWS = [k for k in NEXUS_KEYWORDS if all(ch in AA for ch in k)]
 
